@@ -23,7 +23,7 @@ REQS = {
     "http10": (b"POST /sync HTTP/1.0\r\nContent-Length: 2\r\n\r\nhi", [b"hi"]),
 }
 MODES = ["raw-sync", "raw-async0", "raw-gated-headers", "raw-gated-data", "raw-respond-later", "raw-never",
-         "app-sync", "app-async", "app-stream", "app-stream-async"]
+         "app-sync", "app-async", "app-stream", "app-stream-async", "app-early-error", "app-early-finish"]
 FAULTS = ["eof", "reset", "silence", "none"]
 
 
@@ -150,7 +150,18 @@ def make_server_delegate(mode, rec):
             rec.handler_events.append(("data", bytes(chunk)))
             await asyncio.sleep(0)
 
-    cls = {"app-sync": Sync, "app-async": Async, "app-stream": Stream, "app-stream-async": StreamAsync}[mode]
+    @web.stream_request_body
+    class EarlyError(Stream):
+        def prepare(self):
+            raise web.HTTPError(403)
+
+    @web.stream_request_body
+    class EarlyFinish(Stream):
+        def prepare(self):
+            self.finish("early")
+
+    cls = {"app-sync": Sync, "app-async": Async, "app-stream": Stream, "app-stream-async": StreamAsync,
+           "app-early-error": EarlyError, "app-early-finish": EarlyFinish}[mode]
     app = web.Application([("/sync", cls)])
 
     class SD(httputil.HTTPServerConnectionDelegate):
